@@ -170,6 +170,14 @@ class ComposedNode(ConfigNode):
                 if condition(child_path, child):
                     keep = True
                 if isinstance(child, ComposedNode): #not child.ayns.is_leaf:
+                    below = [] if keep else list(child.ayns.nodes_with_paths(prefix=child_path, include_self=False))
+                    if not keep and not any(condition(p, n) for p, n in below):
+                        # nothing in it is to be kept: it goes as a whole and stays what it is - the node can stand at other
+                        # places too (yaml alias), where nobody has asked for anything to be removed from it
+                        if removed is not None:
+                            removed.update(p for p, _ in below)
+                        to_del.append(name)
+                        continue
                     possibly_new_child = child.ayns.filter_nodes(condition, prefix=child_path, removed=removed)
                     # a container survives iff something below it does; do not rely on truthiness, which e.g. for
                     # function nodes (!call/!bind) tells whether a target is set, not whether any child is left
